@@ -12,7 +12,7 @@ def jobs(tier, ctx):
     for (op, kinds) in (('F_ADD', ['BUF', 'BUF']), ('F_ADD', ['STR', 'STR']), ('F_ADD', ['ARRM', 'NUM']), ('F_INDEX', ['NUM', 'BUF']), ('F_INDEX', ['NUM', 'STR']),
                         ('F_POP_VALUE', ['BUF']), ('F_POP_VALUE', ['ARRM']), ('F_NN_RANGE', ['NUM', 'NUM', 'BUF']), ('F_RR_RANGE', ['NUM', 'NUM', 'STR']),
                         ('F_EQ', ['ARRM', 'ARRM']), ('F_EQ', ['BUF', 'BUF']), ('F_NE', ['STR', 'STR']), ('F_NOT', ['ARRM']), ('F_NEGATE', ['BUF']), ('F_LT', ['STR', 'STR'])):
-        add(op, kinds, oracle=['REF'], extra_defs=['LENK%d=2' % i for i, k in enumerate(kinds) if k == 'ARRM'])
+        add(op, kinds, oracle=['REF'], extra_defs=['LENK%d=2' % i for i, k in enumerate(kinds) if k == 'ARRM'], typed_arrays=(8 if 'ARRM' in kinds else 0))
     out.append(dict(name='string_refs', srcs=['@harness/C06/string_refs.c', 'lib/misc/hash.c'], stubs=['@world/world_base.c', '@world/libc_models.c', '@world/world_err.c'], unwind=8,
                     targets=['ref_string', 'free_string', 'make_shared_string'], timeout=300, mem_gb=6, opt_witness=['wrap_to_immortal', 'freed'],
                     desc='shared string with ANY 16-bit counter value (incl. 0xFFFE, 0xFFFF, saturated 0): one ref_string or free_string: freed iff it was the last holder; a saturated string is immortal',
